@@ -180,6 +180,31 @@ class SpatialVector(SMUserList):
         return  self.__class__([-x for x in self.data])
 
 
+    def __eq__(left, right):  # lgtm[py/not-named-self] pylint: disable=no-self-argument
+        """
+        Overloaded ``==`` operator (superclass method)
+
+        :return: Equality of two operands
+        :rtype: bool or list of bool
+
+        ``v1 == v2`` is True if ``v1`` is elementwise equal to ``v2``.  If either
+        operand has several values the result is a list of bool.
+        """
+        if type(left) != type(right):
+            raise TypeError('operands to == are of different types')
+        return left.binop(right, lambda x, y: bool(np.all(x == y)), list1=False)
+
+    def __ne__(left, right):  # lgtm[py/not-named-self] pylint: disable=no-self-argument
+        """
+        Overloaded ``!=`` operator (superclass method)
+
+        :return: Inequality of two operands
+        :rtype: bool or list of bool
+        """
+        if type(left) != type(right):
+            raise TypeError('operands to != are of different types')
+        return left.binop(right, lambda x, y: not bool(np.all(x == y)), list1=False)
+
     def __add__(left, right):  # lgtm[py/not-named-self] pylint: disable=no-self-argument
         """
         Overloaded ``*`` operator (superclass method)
@@ -568,6 +593,22 @@ class SpatialInertia(SMUserList):
     def __str__(self):
         return str(self.A)
 
+
+    def __eq__(left, right):  # lgtm[py/not-named-self] pylint: disable=no-self-argument
+        """
+        Overloaded ``==`` operator: elementwise equality of the inertia matrices
+        """
+        if not isinstance(right, SpatialInertia):
+            raise TypeError('operands to == are of different types')
+        return left.binop(right, lambda x, y: bool(np.all(x == y)), list1=False)
+
+    def __ne__(left, right):  # lgtm[py/not-named-self] pylint: disable=no-self-argument
+        """
+        Overloaded ``!=`` operator
+        """
+        if not isinstance(right, SpatialInertia):
+            raise TypeError('operands to != are of different types')
+        return left.binop(right, lambda x, y: not bool(np.all(x == y)), list1=False)
 
     def __add__(left, right):  # lgtm[py/not-named-self] pylint: disable=no-self-argument
         """
